@@ -234,6 +234,12 @@ def judge(ctx, tasks, results):
 
 
 def run(ctx):
+    # EvalO.lean must be the mechanical translation of Eval.lean (World -> oracle world)
+    import subprocess, sys
+    rc = subprocess.run([sys.executable, os.path.join(common.VERIF, "harness", "gen_evalo.py"), "--check"]).returncode
+    ctx.stream("EvalO.lean is the translation of Eval.lean (gen_evalo.py --check)", cases=1, compared=1)
+    if rc != 0:
+        ctx.disagree("EvalO.lean is the translation of Eval.lean (gen_evalo.py --check)", "lean/LiquerModel/EvalO.lean", "out of date", "regenerate with harness/gen_evalo.py")
     count = 900 if ctx.tier == "thorough" else 150
     tasks = gen_tasks(ctx, count)
     results = common.pmap(run_schedule, tasks)
